@@ -134,9 +134,12 @@ func (l *entryLog) AddEntries(entries []raftpb.Entry) error {
 		if firstIdx == -1 {
 			// The existing entry was found in the current file. We only have to zero out
 			// from the entries after the one in which the entry was found.
+			// WriteSlice puts a 4-byte length in front of the data: the zero buffer is that much shorter so
+			// that the write ends exactly at the last slot to clear (the length lands in the slot that the
+			// first new entry overwrites below).
 			if l.nextEntryIdx > lastIdx {
 				logger.GetLogger().Info("clearCurrentFile slots", zap.Int("startSlot", lastIdx), zap.Int("endSlot", l.nextEntryIdx))
-				_ = l.current.entry.WriteSlice(lastIdx, l.nextEntryIdx, int64(entrySize*lastIdx), make([]byte, entrySize*l.nextEntryIdx-entrySize*lastIdx), false, true)
+				_ = l.current.entry.WriteSlice(lastIdx, l.nextEntryIdx, int64(entrySize*lastIdx), make([]byte, entrySize*l.nextEntryIdx-entrySize*lastIdx-unit32Size), false, true)
 			}
 		} else {
 			// The existing entry was found in one of the previous file.
@@ -160,7 +163,7 @@ func (l *entryLog) AddEntries(entries []raftpb.Entry) error {
 			}
 			logger.GetLogger().Info("clearFirstFile slots", zap.Int("startSlot", lastIdx), zap.Int("endSlot", maxNumEntries),
 				zap.Int("fileLoc", firstIdx), zap.Int("fileNum", len(l.files)))
-			_ = l.current.entry.WriteSlice(lastIdx, maxNumEntries, int64(entrySize*lastIdx), make([]byte, logFileOffset-entrySize*lastIdx), false, true)
+			_ = l.current.entry.WriteSlice(lastIdx, maxNumEntries, int64(entrySize*lastIdx), make([]byte, logFileOffset-entrySize*lastIdx-unit32Size), false, true)
 			l.current.entry.setCurrent()
 			l.files = l.files[:firstIdx]
 			l.filesSync.Unlock()
